@@ -32,14 +32,27 @@ Definition pair_of (d : direction) (this : nat) (other : option nat) : option (n
 (* independent reading of "the turn class of two headings": signed difference of the headings brought into
    [-180, 180) and classified by its magnitude; positive = to the right *)
 Definition spec_angle (from_heading to_heading : Z) : Z := ((to_heading - from_heading + 180) mod 360 - 180)%Z.
-Definition spec_turn (from_heading to_heading : Z) : turn :=
-  let a := spec_angle from_heading to_heading in
+Definition spec_class (a : Z) : turn :=
   let m := Z.abs a in
   if (m <? 20)%Z then NoTurn
   else if (m <? 45)%Z then (if (0 <? a)%Z then SlightRight else SlightLeft)
   else if (m <? 135)%Z then (if (0 <? a)%Z then Right else Left)
   else if (m <? 160)%Z then (if (0 <? a)%Z then SharpRight else SharpLeft)
   else UTurn.
+Definition spec_turn (from_heading to_heading : Z) : turn := spec_class (spec_angle from_heading to_heading).
+
+(* the delay of the turn from edge e1 into edge e2: heading at the END of e1 and at the START of e2, classified by
+   [spec_turn] (NOT by the transcription of the Rust code), looked up in the table; 0 when a row is missing (the
+   theorems are about routes that exist) *)
+Definition spec_delay (td : turn_delay Q) (e1 e2 : nat) : Q :=
+  match nth_error (td_headings td) e1, nth_error (td_headings td) e2 with
+  | Some h1, Some h2 =>
+      match table_get QN (td_table td) (spec_turn (end_heading h1) (start_heading h2)) with
+      | Some v => v
+      | None => 0
+      end
+  | _, _ => 0
+  end.
 
 Section Spec.
   Variable inst : instance Q.
@@ -67,9 +80,7 @@ Section Spec.
               / convert_speed QN (sp_su en) base_speed_unit (speed e)))
     end.
 
-  (* heading pair -> turn -> table delay (0 when anything is missing; the theorems are about Ok routes) *)
-  Definition raw_delay (td : turn_delay Q) (e1 e2 : nat) : Q :=
-    match get_delay QN td e1 e2 with Ok d => d | _ => 0 end.
+  Definition raw_delay (td : turn_delay Q) (e1 e2 : nat) : Q := spec_delay td e1 e2.
   Definition delay_inc (pair : option (nat * nat)) : Q :=
     match i_am inst, pair with
     | AMTurnDelay td, Some (e1, e2) => convert_time QN (td_unit td) fu_t (raw_delay td e1 e2)
